@@ -1,8 +1,10 @@
-"""copy verified seeds from /tmp/seed/<id>/out/<k> into /verif/seeded/<id>-<k>/ (patch.diff, demo.py, notes.md, meta.json)"""
+"""copy verified seeds from $SEED_BASE/<id>/out/<k> (default /tmp/seed) into /verif/seeded/<id>-<k>/ (patch.diff, demo.py, notes.md, meta.json)"""
 import json, os, shutil, sys, glob
 props = {json.loads(l)['id']: json.loads(l) for l in open('/verif/properties.jsonl')}
-for d in sorted(glob.glob('/tmp/seed/C*/out/[0-9]')):
-    pid, k = d.split('/')[3], d.split('/')[5]
+BASE = os.environ.get('SEED_BASE', '/tmp/seed')
+OFFSET = int(os.environ.get('SEED_OFFSET', '0'))      # round 2 seeds are installed as <id>-<k+3>
+for d in sorted(glob.glob(BASE + '/C*/out/[0-9]')):
+    pid, k = d.split('/')[-3], str(int(d.split('/')[-1]) + OFFSET)
     vf = os.path.join(d, 'verify.json')
     if not os.path.exists(vf):
         continue
